@@ -95,9 +95,13 @@ class Run:
         out = []
         bad_floor = [(r, c, m) for r, c, m in self.floors if c < m]
         viol, knownhits = [], []
+        seen_keys = set()
         for o in self.obs:
             if o.ok:
                 continue
+            if (o.rule, o.key) in seen_keys:
+                continue
+            seen_keys.add((o.rule, o.key))
             if only_key is not None and o.key != only_key:
                 continue
             k = kf.get((self.pid, o.rule, o.key))
